@@ -647,10 +647,11 @@ Proof.
       unfold ind. split_ifs; lia.
     + intros t0 _. rewrite S. reflexivity.
   - discriminate.
+  - discriminate.
 Qed.
 
 (** * Transactions (framed operations) and histories *)
-Definition unframed (o : op) : Prop := match o with Framed _ _ => False | _ => True end.
+Definition unframed (o : op) : Prop := match o with Framed _ _ | Seq _ _ => False | _ => True end.
 
 Lemma step_unframed s o : unframed o ->
   step s o = match exec s o with Some s' => (s', true) | None => (s, false) end.
@@ -663,7 +664,12 @@ Proof.
     try (rewrite step_unframed by exact Logic.I;
          match goal with |- context [exec s ?o] => destruct (exec s o) as [s'|] eqn:E end;
          [exact (exec_ok _ _ _ I E) | apply same_ok; exact I]).
-  simpl. match goal with f : frame |- _ => destruct f end; simpl; try (apply same_ok; exact I); apply IHo; exact I.
+  - simpl. match goal with f : frame |- _ => destruct f end; simpl; try (apply same_ok; exact I); apply IHo; exact I.
+  - simpl. destruct (snd (step s o1)); [|apply same_ok; exact I].
+    destruct (IHo1 s I) as [I1 K1].
+    destruct (snd (step (fst (step s o1)) o2)); [|apply same_ok; exact I]. simpl.
+    destruct (IHo2 _ I1) as [I2 K2]. split; [exact I2|].
+    intros m Hm. destruct (K1 m Hm) as [A1 B1]. destruct (K2 m A1) as [A2 B2]. split; [exact A2 | lia].
 Qed.
 
 Lemma init_inv : Inv init.
@@ -731,7 +737,9 @@ Proof.
   revert s. induction o; intro s;
     try (rewrite step_unframed by exact Logic.I;
          match goal with |- context [exec ?s0 ?o] => destruct (exec s0 o) end; simpl; [discriminate | reflexivity]).
-  simpl. match goal with f : frame |- _ => destruct f end; simpl; try reflexivity; try discriminate; apply IHo.
+  - simpl. match goal with f : frame |- _ => destruct f end; simpl; try reflexivity; try discriminate; apply IHo.
+  - simpl. destruct (snd (step s o1)); [|reflexivity].
+    destruct (snd (step (fst (step s o1)) o2)); [discriminate | reflexivity].
 Qed.
 
 Lemma reverted_frame_changes_nothing s o :
